@@ -1,16 +1,83 @@
 (** C12 — non-vacuity: the model runs on literals; every hypothesis of every property theorem has an instance. *)
-From Coq Require Import String Ascii NArith List Bool.
-From RlibV Require Import C12.Model C12.Corr C12.Properties.
+From Coq Require Import String Ascii NArith List Bool Sorted Lia.
+From RlibV Require Import C12.Model C12.Corr C12.ProofsBase C12.ProofsHist C12.Properties.
 Import ListNotations.
-Open Scope N_scope.
+Local Open Scope N_scope.
 
+Definition s3 : bitset := [9223372036854775809; 0; 2].     (* {0, 63, 129} in a 3-word bitset *)
+Definition t3 : bitset := [1; ones64; 0].
+
+Example ex_wf : wfb s3 = true /\ wfb t3 = true /\ length s3 = length t3 /\ cap s3 = 192 /\ cap s3 < 2 ^ 64.
+Proof. vm_compute. repeat split; reflexivity. Qed.
+
+(** the model runs *)
 Example ex_set_run : set [0; 0] 64 = Some [0; 1].
 Proof. vm_compute. reflexivity. Qed.
 Example ex_set_oob : set [0; 0] 128 = None.
 Proof. vm_compute. reflexivity. Qed.
-Example ex_iter_run : iter_bits [9223372036854775809; 0; 2] = Some (192, [0; 63; 129]).
+Example ex_remove_run : remove s3 63 = Some [1; 0; 2].
 Proof. vm_compute. reflexivity. Qed.
-Example ex_count_run : count [9223372036854775809; 0; 2] = 3.
+Example ex_flip_run : flip s3 191 = Some [9223372036854775809; 0; 9223372036854775810].
+Proof. vm_compute. reflexivity. Qed.
+Example ex_iter_run : iter_bits s3 = Some (192, [0; 63; 129]).
+Proof. vm_compute. reflexivity. Qed.
+Example ex_iter_full_run : iter_obs (bnot [0]) = Some (map N.of_nat (seq 0 64), true).
+Proof. vm_compute. reflexivity. Qed.
+Example ex_count_run : count s3 = 3.
 Proof. vm_compute. reflexivity. Qed.
 Example ex_not_run : bnot [1; ones64] = [18446744073709551614; 0].
 Proof. vm_compute. reflexivity. Qed.
+Example ex_and_run : bin_ref N.land s3 t3 = Some [1; 0; 0] /\ bin_assign N.lxor s3 t3 = [9223372036854775808; ones64; 2].
+Proof. vm_compute. split; reflexivity. Qed.
+Example ex_display_run : display [5] = Some "1010000000000000000000000000000000000000000000000000000000000000"%string.
+Proof. vm_compute. reflexivity. Qed.
+Example ex_from_run : from_u64 2 7 = Some [7; 0] /\ from_u64 0 7 = None.
+Proof. vm_compute. split; reflexivity. Qed.
+
+(** every hypothesis of every theorem is satisfiable: the theorems applied to the literals *)
+Example ex_set : exists s', set s3 64 = Some s' /\ wfb s' = true /\ length s' = length s3 /\
+                   forall i, mem s' i = if i =? 64 then true else mem s3 i.
+Proof. apply (c12_set s3 64); reflexivity. Qed.
+Example ex_set_none : set s3 192 = None.
+Proof. apply (c12_set s3 192); [reflexivity|]. vm_compute. discriminate. Qed.
+Example ex_remove : exists s', remove s3 63 = Some s' /\ wfb s' = true /\ length s' = length s3 /\
+                   forall i, mem s' i = if i =? 63 then false else mem s3 i.
+Proof. apply (c12_remove s3 63); reflexivity. Qed.
+Example ex_flip : exists s', flip s3 0 = Some s' /\ wfb s' = true /\ length s' = length s3 /\
+                   forall i, mem s' i = if i =? 0 then negb (mem s3 i) else mem s3 i.
+Proof. apply (c12_flip s3 0); reflexivity. Qed.
+Example ex_from : exists s, from_u64 3 5 = Some s /\ wfb s = true /\ length s = 3%nat /\
+                   forall i, mem s i = if i <? 64 then N.testbit 5 i else false.
+Proof. apply c12_from_u64; [lia|reflexivity]. Qed.
+Example ex_and : forall i, mem (bin_assign N.land s3 t3) i = mem s3 i && mem t3 i.
+Proof. apply (c12_and s3 t3); reflexivity. Qed.
+Example ex_or : forall i, mem (bin_assign N.lor s3 t3) i = mem s3 i || mem t3 i.
+Proof. apply (c12_or s3 t3); reflexivity. Qed.
+Example ex_xor : forall i, mem (bin_assign N.lxor s3 t3) i = xorb (mem s3 i) (mem t3 i).
+Proof. apply (c12_xor s3 t3); reflexivity. Qed.
+Example ex_bin_ref : bin_ref N.lor s3 t3 = Some (bin_assign N.lor s3 t3).
+Proof. apply c12_bin_ref. reflexivity. Qed.
+Example ex_not : forall i, i < cap s3 -> mem (bnot s3) i = negb (mem s3 i).
+Proof. apply (c12_not s3). reflexivity. Qed.
+Example ex_count : count s3 = N.of_nat (length (filter (mem s3) (indices s3))).
+Proof. apply c12_count. reflexivity. Qed.
+Example ex_iter : exists l, iter_bits s3 = Some (cap s3, l) /\ StronglySorted N.lt l /\
+            (forall i, In i l <-> i < cap s3 /\ mem s3 i = true) /\ next s3 (cap s3) = Some (None, cap s3).
+Proof. apply c12_iter_bits; reflexivity. Qed.
+Example ex_next : next s3 1 = Some (Some 63, 64) /\ next s3 130 = Some (None, 192).
+Proof. vm_compute. split; reflexivity. Qed.
+Example ex_eq : (beq s3 t3 = true <-> s3 = t3) /\ (s3 = t3 <-> forall i, i < cap s3 -> mem s3 i = mem t3 i).
+Proof. apply c12_eq; reflexivity. Qed.
+
+Definition h1 : list op :=
+  [OSet 0 63; OFrom 1 ones64; OBinRef BXor 2 0 1; ONot 3 2; OIter 3; OCount 2; OSet 0 128; OEq 0 1; ODisplay 0;
+   OBinAssign BAnd 1 0; OTest 1 63; OFlip 1 64; OIter 1].
+Example ex_history_hyp : N.of_nat 2 < 2 ^ 58 /\ Forall op_ok h1.
+Proof. split; [reflexivity|]. repeat constructor. Qed.
+Example ex_history : run (word_impl 2) (init (word_impl 2)) h1 = run (naive_impl 2) (init (naive_impl 2)) h1.
+Proof. apply c12_history; apply ex_history_hyp. Qed.
+Example ex_history_run : run (word_impl 2) (init (word_impl 2)) [OSet 0 63; OSet 0 128; OFrom 1 5; OBinRef BOr 2 0 1; OIter 2; OCount 2]
+  = [VUnit; VPanic; VUnit; VUnit; VList [0; 2; 63] true; VNum 3].
+Proof. vm_compute. reflexivity. Qed.
+Example ex_case_ok : case_ok (Case 2 [(OSet 0 63, VUnit); (OFrom 1 5, VUnit); (OCount 0, VNum 1)]).
+Proof. split; [reflexivity|]. repeat constructor. Qed.
